@@ -369,6 +369,10 @@ def close_loop_facts(run, f):
                     bad = "a live deed is popped and dropped without dog.close()"
                 if app or moved:
                     bad = "deed re-appended in the close loop"
+            elif oc == BREAK and marker and marker_sorted_first(f, loop):
+                # the deeds were ordered by position in self.doers with the marker keyed below every position: it is the leftmost
+                # element, popped last from the right, so leaving the loop at the marker leaves nothing behind
+                bad = None
             elif oc == BREAK or oc == RETURN:
                 bad = "close loop left early (%s) with deeds possibly remaining" % oc[0]
             elif is_raise(oc) and oc[1] == "StopIteration":
@@ -545,7 +549,8 @@ def recur_facts(run, cls):
         for n in ast.walk(st):
             mc = method_call(n) if isinstance(n, ast.Call) else None
             if mc and mc[0] == deq and mc[1] in ("append", "appendleft") and n.args \
-                    and isinstance(n.args[0], ast.Tuple) and all(isinstance(e, ast.Constant) and e.value is None for e in n.args[0].elts):
+                    and isinstance(n.args[0], ast.Tuple) and n.args[0].elts and isinstance(n.args[0].elts[0], ast.Constant) and n.args[0].elts[0].value is None:
+                # the marker is whatever deed has no dog (`if not dog` is the only test made of it)
                 marker = ("right" if mc[1] == "append" else "left", n)
     facts["recur.marker-before-loop"] = (marker[0] if marker else None, run.site(f, marker[1]) if marker else site)
 
@@ -1296,7 +1301,10 @@ def scheduler_fact_bundle(run, cls):
         fs_ = conservation_facts(run, f, what)
         out["conserve.%s" % what] = (tuple(sorted((x.name, x.ok) for x in fs_)), run.site(f))
     f = ix.method(cls, "exit")
-    out["close-loop"] = (tuple(sorted((x.name, x.ok) for x in close_loop_facts(run, f))), run.site(f))
+    # siblings are compared on what the loop does to each kind of deed, not on whether the (provably last) marker is left by
+    # `continue` or `break`
+    out["close-loop"] = (tuple(sorted({(x.name.replace("|break", "|continue") if x.ok and "marker=True" in x.name else x.name, x.ok)
+                                       for x in close_loop_facts(run, f)})), run.site(f))
     f = ix.method(cls, "enter")
     out["enter-safety"] = (tuple(sorted((x.name, x.ok) for x in enter_safety_facts(run, f))), run.site(f))
     hz, _ = rotation_hazard_facts(run, cls)
@@ -1454,6 +1462,27 @@ def _sorted_by_doers_index(f, maps):
                     if used & maps and third:
                         hits.append((n, n.targets[0].id, dotted(c.args[0])))
     return hits
+
+
+def marker_sorted_first(f, loop):
+    """exit() ordered the deque by position in self.doers before `loop`, with unknown doers (the marker's None) keyed by a negative
+    default, and pops from the right: the marker is the last element popped."""
+    maps = _doers_index_maps(f)
+    popped = {l[2] for l in deque_loops(f) if l[0] is loop}
+    for node, tgt, src in _sorted_by_doers_index(f, maps):
+        if node.lineno >= loop.lineno:
+            continue
+        wrote_back = any(isinstance(c, ast.Call) and method_call(c) == (src, "extend") and c.args and dotted(c.args[0]) == tgt and c.lineno < loop.lineno
+                         for c in walk_local(f.node)) and any(isinstance(c, ast.Call) and method_call(c) == (src, "clear") and c.lineno < loop.lineno
+                                                              for c in walk_local(f.node))
+        if not ((wrote_back and src in popped) or tgt in popped):
+            continue
+        for c in ast.walk(node.value):
+            if isinstance(c, ast.Call) and isinstance(c.func, ast.Attribute) and c.func.attr == "get" and dotted(c.func.value) in maps and len(c.args) == 2:
+                d = c.args[1]
+                if isinstance(d, ast.UnaryOp) and isinstance(d.op, ast.USub) and isinstance(d.operand, ast.Constant) and d.operand.value > 0:
+                    return True
+    return False
 
 
 def close_order_facts(run, cls):
